@@ -382,3 +382,19 @@ def report_request(ex):
     req = ('repr_failure_head', ex.exc_info[0].__name__, str(ex.node), str(fpath), prefix, ex.lineno, [part_data(p) for p in ex._parts],
            skipped, logged, failed, tb, bool(ex.config.getvalue('offset_linenos', None)), bool(ex.config.getvalue('partnos')))
     return req, head
+
+
+def run_both_many_safe(items):
+    """run_both_many; when one of the (well formed) doctests cannot even be parsed or handed to the model, the others are still
+    judged and that one comes back as a run that did not return a summary (so that it is reported as the failing input)"""
+    try:
+        return run_both_many(items)
+    except Exception:      # noqa
+        out = []
+        for it in items:
+            try:
+                out += run_both_many([it])
+            except Exception as e:      # noqa
+                out.append(({'end': 'not parsed or run: %s: %s' % (type(e).__name__, str(e)[:120]), 'passed': False, 'failed': None, 'skipped': False,
+                             'trace': None, 'failure': None, 'failed_part': None, 'executed': None, 'logged': None}, None, [], None))
+        return out
